@@ -18,8 +18,8 @@
 
 namespace {
 
-enum SK { PAUSE = 0, RESD, RESA, AW, LOCK, RELD, RELA, QPUSHD, QPUSHA, QPOP, DETD, DETA, NSK };
-static const char *sk_names[] = {"pause", "resolve/discard", "resolve/await", "await", "lock", "release/discard", "release/await", "push/discard", "push/await", "pop", "detach/discard", "detach/await"};
+enum SK { PAUSE = 0, RESD, RESA, AW, LOCK, RELD, RELA, QPUSHD, QPUSHA, QPOP, DETD, DETA, STARTF, COAWAIT, RES2D, NSK };
+static const char *sk_names[] = {"pause", "resolve/discard", "resolve/await", "await", "lock", "release/discard", "release/await", "push/discard", "push/await", "pop", "detach/discard", "detach/await", "start()", "co_await-child", "resolve-both-merged/discard"};
 struct Step {
     int k;
     int arg;  // future index or child id
@@ -46,6 +46,8 @@ struct Ref {
     std::deque<std::vector<int>> Q;  // batches; members of one batch are mutually unordered
     std::vector<int> D;              // resumed directly from normal code, one after another, before the queue is flushed
     int running = -1;
+    std::vector<int> nest;           // coroutines that started a child with start(): they continue when the nested activation ends
+    int awaited_by[MAXA] = {-1, -1, -1, -1};  // co_await child: the awaiting coroutine gets a direct transfer when the child finishes
     std::vector<int> allowed;        // who may produce the next event (empty + running>=0: the running one continues)
     bool expect_continue = false;
     int pc[MAXA] = {0, 0, 0, 0};       // next step index
@@ -65,6 +67,14 @@ struct Ref {
     void next_from_queue() {
         running = -1;
         expect_continue = false;
+        if (!nest.empty()) {
+            // the nested activation begun by start() is over: its caller simply continues; the ready queue is not drained
+            running = nest.back();
+            nest.pop_back();
+            expect_continue = true;
+            allowed.clear();
+            return;
+        }
         if (!D.empty()) {
             allowed = D;
             return;
@@ -234,6 +244,36 @@ struct Ref {
                 state[st.arg] = 1;
                 handover_direct({st.arg});
                 break;
+            case STARTF:
+                // the child runs at once as a nested activation; nothing from the ready queue may run before the caller continues
+                state[st.arg] = 1;
+                nest.push_back(a);
+                running = -1;
+                expect_continue = false;
+                allowed = {st.arg};
+                break;
+            case COAWAIT:
+                state[st.arg] = 1;
+                awaited_by[st.arg] = a;
+                state[a] = 2;
+                running = -1;
+                expect_continue = false;
+                allowed = {st.arg};
+                break;
+            case RES2D: {
+                // two promises resolved, their suspend points merged in that order, the merged point discarded:
+                // the waiters of the first future were readied first and must run first
+                for (int k = 0; k < 2; k++) {
+                    std::vector<int> s;
+                    if (!fut_resolved[k]) {
+                        fut_resolved[k] = true;
+                        s = take_waiters(k);
+                    }
+                    enqueue_batch(s);
+                }
+                cont();
+                break;
+            }
         }
     }
     int pending_rest_then = -1;
@@ -259,6 +299,14 @@ struct Ref {
             return;
         }
         state[a] = 3;
+        if (awaited_by[a] >= 0) {
+            // symmetric transfer to the coroutine awaiting the result: skips the queue by design
+            allowed = {awaited_by[a]};
+            awaited_by[a] = -1;
+            running = -1;
+            expect_continue = false;
+            return;
+        }
         next_from_queue();
     }
     // normal code: a top-level call returned
@@ -281,6 +329,7 @@ struct Env {
     cocls::promise<int> prom[2];
     cocls::mutex mx;
     cocls::queue<int> q;
+    cocls::future<void> cf[MAXA];
     Ref ref;
     int finished = 0;
     int active[MAXA] = {0, 0, 0, 0};
@@ -325,6 +374,13 @@ static cocls::async<void> actor(Env &e, int id) {
             case QPOP: co_await e.q.pop(); break;
             case DETD: actor(e, st.arg).detach(); break;
             case DETA: co_await actor(e, st.arg).detach(); break;
+            case STARTF: e.cf[st.arg] << [&] { return actor(e, st.arg).start(); }; break;
+            case COAWAIT: co_await actor(e, st.arg); break;
+            case RES2D: {
+                cocls::suspend_point<void> sp = e.prom[0](7);
+                sp << e.prom[1](7);
+                break;  // discarded
+            }
         }
         if (e.active[id]++) e.ref.fail("sched/resumed-while-running", "coroutine " + std::to_string(id) + " resumed while already active");
         ev_run(e, id, false, (int)i);
@@ -366,7 +422,7 @@ static void run_program(seqx::Runner &R, int entry, const std::vector<Script> &s
         started[0] = true;
         for (auto &s : scripts)
             for (auto &st : s)
-                if (st.k == DETD || st.k == DETA) started[(size_t)st.arg] = true;
+                if (st.k == DETD || st.k == DETA || st.k == STARTF || st.k == COAWAIT) started[(size_t)st.arg] = true;
         for (bool b : started) nstarted_expected += b;
         Ref &r = e->ref;
         // entry
@@ -460,16 +516,19 @@ struct Gen {
         for (int k : alphabet) {
             if ((k == LOCK) && holds) continue;
             if ((k == RELD || k == RELA) && !holds) continue;
-            int nargs = (k == RESD || k == RESA || k == AW) ? nfut : (k == DETD || k == DETA) ? N : 1;
+            if (k == RES2D && nfut < 2) continue;
+            if (k == COAWAIT && holds) continue;  // awaiting a child that needs the mutex we hold is a designed deadlock
+            bool spawns = k == DETD || k == DETA || k == STARTF || k == COAWAIT;
+            int nargs = (k == RESD || k == RESA || k == AW) ? nfut : spawns ? N : 1;
             for (int arg = 0; arg < nargs; arg++) {
-                if (k == DETD || k == DETA) {
+                if (spawns) {
                     if (arg <= a || detached[(size_t)arg]) continue;
                     detached[(size_t)arg] = true;
                 }
                 scripts[(size_t)a].push_back({k, arg});
                 gen_steps(a, k == LOCK ? true : (k == RELD || k == RELA) ? false : holds);
                 scripts[(size_t)a].pop_back();
-                if (k == DETD || k == DETA) detached[(size_t)arg] = false;
+                if (spawns) detached[(size_t)arg] = false;
             }
         }
     }
@@ -487,13 +546,14 @@ void seqx_run(seqx::Runner &R, const std::string &tier) {
     std::vector<int> full;
     for (int k = 0; k < NSK; k++) full.push_back(k);
     if (tier == "quick") {
-        enumerate(R, 2, 3, 1, full);
-        enumerate(R, 3, 2, 1, {PAUSE, RESD, RESA, AW, LOCK, RELD, RELA, QPUSHD, QPOP, DETD, DETA});
+        enumerate(R, 2, 3, 1, {PAUSE, RESD, RESA, AW, LOCK, RELD, RELA, QPUSHD, QPUSHA, QPOP, DETD, DETA, STARTF, COAWAIT});
+        enumerate(R, 3, 2, 2, {PAUSE, RESD, RESA, AW, LOCK, RELD, RELA, QPUSHD, QPOP, DETD, DETA, STARTF, COAWAIT, RES2D});
     } else {
         enumerate(R, 2, 3, 2, full);
-        enumerate(R, 2, 4, 1, {PAUSE, RESD, RESA, AW, LOCK, RELD, RELA, DETD, DETA});
+        enumerate(R, 2, 4, 1, {PAUSE, RESD, RESA, AW, LOCK, RELD, RELA, DETD, DETA, STARTF, COAWAIT});
         enumerate(R, 3, 2, 2, full);
-        enumerate(R, 3, 3, 1, {PAUSE, RESD, RESA, AW, RELD, LOCK, DETD, DETA});
+        enumerate(R, 3, 3, 2, {PAUSE, RESD, AW, RELD, LOCK, DETD, STARTF, COAWAIT, RES2D});
+        enumerate(R, 4, 2, 2, {PAUSE, RESD, AW, DETD, STARTF, RES2D});
     }
 }
 
